@@ -288,6 +288,13 @@ class History:
             elif op == "iadd_copy":
                 o = h.copy()
                 self.add(o, sources=(h,))
+                if h.ndim == 1 and rng.random() < 0.5:
+                    b_ = np.asarray(h.bins)
+                    gaps_ = [i for i in range(len(b_) - 1) if b_[i, 1] != b_[i + 1, 0]]
+                    if gaps_:
+                        # the addend has met a value in a gap: its under / overflow read "unknown" (NaN), also for integer contents
+                        i_ = rng.choice(gaps_)
+                        o.fill(float((b_[i_, 1] + b_[i_ + 1, 0]) / 2))
                 h += o
             elif op == "iadd_grown":
                 o = h.copy()
